@@ -74,6 +74,15 @@ Theorem C18_short_unsized : forall want sz r q,
   | CSent e => if r_read r =? e then Eof else Fail KUnexpectedEof
   end.
 Proof. exact short_end_unsized. Qed.
+(** (dropping an unsized sender before shutdown, or cutting the connection before the size arrived,
+    is what makes the size oneshot [CDropped];) *)
+Theorem C18_short_drop : forall y s,
+  y_tx y = Some s -> s_mode s = Unknown -> y_down y = false ->
+  view (fst (step (fst (step y ADropTx)) ADeliverSize)) = CDropped.
+Proof. exact drop_unsized_view. Qed.
+Theorem C18_short_cut : forall y,
+  y_down y = false -> y_arrived y = false -> view (fst (step y ACut)) = CDropped.
+Proof. exact cut_view. Qed.
 (** a broken event stream (connection cut, port error). *)
 Theorem C18_short_err : forall k want sz r q,
   at_end r -> (r_size r = Some Undetermined \/ exists n, r_size r = Some (Determined n) /\ r_read r < n) ->
@@ -112,6 +121,8 @@ Print Assumptions C18_short_never_eof.
 Print Assumptions C18_short_shutdown.
 Print Assumptions C18_short_sized.
 Print Assumptions C18_short_unsized.
+Print Assumptions C18_short_drop.
+Print Assumptions C18_short_cut.
 Print Assumptions C18_short_err.
 Print Assumptions C18_poisoned.
 Print Assumptions C18_total.
